@@ -96,7 +96,7 @@ def data_line(ds):
 
 def default_params(rng, ds, variant):
     n = ds["N"]
-    p = {"d": 2, "k": rng.choice([5, 6, 7]), "seed": rng.randint(1, 10 ** 6),
+    p = {"d": variant.get("d", 2), "k": rng.choice([5, 6, 7]), "seed": rng.randint(1, 10 ** 6),
          "nm": variant.get("nm", "brute"), "em": variant.get("em", "dense"),
          "perp": rng.choice([2.0, 3.0, min(4.0, (n - 1) / 3.0)]), "theta": variant.get("theta", 0.0),
          "maxit": 30, "lr": 0.5, "width": rng.choice([1.0, 2.5]), "ts": rng.choice([1, 2, 3]),
@@ -254,6 +254,17 @@ def run_cases(ctx, exe, ds, cases):
     return results
 
 
+def impl_traits(ctx, exe):
+    """is_dummy<T>::value of the library's callback classes, as the compiler sees it"""
+    r = ctx.run(exe, "TRAITS\n", timeout=60)
+    out = {}
+    for line in r.out.splitlines():
+        w = line.split()
+        if len(w) == 3 and w[0] == "I" and w[2] in ("0", "1"):
+            out[w[1]] = w[2] == "1"
+    return out
+
+
 def impl_needs(ctx, exe):
     r = ctx.run(exe, "NEEDS " + " ".join(METHODS) + "\n", timeout=60)
     needs = {}
@@ -293,7 +304,7 @@ def model_summary(ctx, mexe):
     if mexe is None:
         return None
     r = ctx.run(mexe, "SUMMARY\n", timeout=300)
-    s = {"methods": {}, "routes_fail": [], "suff_fail": [], "dispatch_ok": None}
+    s = {"methods": {}, "routes_fail": [], "suff_fail": [], "dispatch_ok": None, "flags": {}, "bad_derefs": []}
     for line in r.out.splitlines():
         w = line.split()
         if not w:
@@ -306,7 +317,16 @@ def model_summary(ctx, mexe):
         elif w[0] == "S":
             s["suff_fail"].append((w[1], w[2], w[3]))
         elif w[0] == "D":
-            s["dispatch_ok"] = w[1].endswith("=1")
+            for kv in w[1:]:
+                if "=" in kv:
+                    a, b = kv.split("=", 1)
+                    s["flags"][a] = b
+            if w[1].startswith("dispatch_ok"):
+                s["dispatch_ok"] = w[1].endswith("=1")
+        elif w[0] == "X":
+            s["bad_derefs"].append(line[2:])
+        elif w[0] == "K" and len(w) == 3:
+            s.setdefault("classes", {})[w[1]] = w[2] == "1"
     return s
 
 
@@ -506,6 +526,13 @@ def plan(ctx, tier, rng, extra_search=False):
                  ("generic", 24, 5, {"nm": "brute", "em": "randomized"}),
                  ("dyadic", 30, 2, {"nm": "covertree", "em": "dense", "speg": 0}),
                  ("generic", 17, 3, {"nm": "vptree", "em": "dense"})]
+        if tier != "quick" and not extra_search:
+            specs += [("dyadic", 22, 4, {"nm": "vptree", "em": "dense", "d": 3, "speg": 0}),
+                      ("generic", 19, 3, {"nm": "covertree", "em": "dense", "d": 1}),
+                      ("generic", 40, 6, {"nm": "covertree", "em": "dense", "d": 3, "theta": 0.5}),
+                      ("lattice", 25, 4, {"nm": "brute", "em": "randomized", "d": 1, "speg": 0}),
+                      ("generic", 33, 2, {"nm": "vptree", "em": "dense", "d": 2, "theta": 0.5}),
+                      ("dyadic", 14, 5, {"nm": "brute", "em": "dense", "d": 3})]
         if extra_search:
             specs = specs[2:]
     out = []
@@ -611,6 +638,17 @@ def _run(ctx, restore):
     needs = impl_needs(ctx, exe)
     if len(needs) != len(METHODS):
         ctx.unshown("harness did not report the needs_* flags of every method (got %d of %d)" % (len(needs), len(METHODS)))
+    traits = impl_traits(ctx, exe)
+    if summ is not None and summ.get("classes"):
+        for cls, marked in summ["classes"].items():
+            seen = [v for k, v in traits.items() if k.split("<")[0] == cls]
+            if not seen:
+                ctx.mismatch({"class": cls}, "harness does not report is_dummy<%s>" % cls)
+            elif any(v != marked for v in seen):
+                ctx.mismatch({"class": cls}, "translated table says %s %s the dummy typedef, the compiler says is_dummy = %s"
+                             % (cls, "has" if marked else "lacks", seen))
+    if traits.get("harness_UCb", False):
+        ctx.mismatch({"class": "UCb"}, "is_dummy<> is true of the harness's real callback type")
     stats = new_stats()
     samples = []
     n = 0
@@ -641,6 +679,11 @@ def _run(ctx, restore):
             ctx.note("regenerated chain table: routing decider fails for order %s entry %s" % (o, e))
         for m, o, e in summ["suff_fail"][:8]:
             ctx.note("regenerated tables: sufficiency decider fails for %s order %s entry %s" % (m, o, e))
+        for x in summ["bad_derefs"][:8]:
+            ctx.note("a data iterator is dereferenced outside a callback argument: " + x[:200])
+        for flag in ("callback_classes_ok", "derefs_ok", "dispatch_ok"):
+            if summ["flags"].get(flag) == "0":
+                ctx.note("regenerated tables: decider %s is false" % flag)
     n += evaluate(ctx, exe, mexe, needs, plan(ctx, ctx.tier, rng), ctx.tier, rng, stats, samples)
     # search phase (CONVENTIONS section 3.2): something is no longer shown and no failing input yet
     if ctx.is_unshown() and not ctx.has_violation():
@@ -674,11 +717,31 @@ def _run(ctx, restore):
         extra={"translators": tstatus, "translator_self_tests_ok": self_ok,
                "over_declaration_reported_not_judged": over,
                "needs_flags_read_from_library": needs,
+               "is_dummy_read_from_library": traits,
+               "model_deciders_on_regenerated_tables": (summ or {}).get("flags", {}),
                "traces_validated_against_impl": n})
 
 
 def replay(ctx, case):
+    os.makedirs(ctx.build, exist_ok=True)
+    lock = open(os.path.join(ctx.build, "run.lock"), "w")
+    fcntl.flock(lock, fcntl.LOCK_EX)
+    restore = []
+    try:
+        return _replay(ctx, case, restore)
+    finally:
+        for path, old in restore:
+            try:
+                open(path, "w").write(old)
+            except OSError:
+                pass
+        lock.close()
+
+
+def _replay(ctx, case, restore):
     exe = ctx.cpp("harness/c13.cpp", sanitize=False, extra=["-O0"])
+    regenerate(ctx, restore)       # the model answers over the tables of the tree under test
+    ctx._unshown = []              # (a changed / untranslatable table is the run's business, not the replay's)
     mexe = None
     try:
         mexe = ctx.extract()
